@@ -25,6 +25,7 @@ type smtpModel struct {
 	states                 map[string]int64
 	stateName              map[int64]string
 	stateWriter            *ssa.Function
+	macros                 map[*ssa.Function]*smtpMacro
 	send                   *ssa.Function
 	reset                  *ssa.Function
 	newSession             *ssa.Function
@@ -193,12 +194,88 @@ func (c *Ctx) smtp() *smtpModel {
 // stateArg returns the constant State passed at a call of the state writer.
 func (m *smtpModel) stateArg(in ssa.Instruction) (int64, bool, bool) {
 	call, ok := in.(*ssa.Call)
-	if !ok || eng.StaticCallee(call.Common()) != m.stateWriter {
+	if !ok {
 		return 0, false, false
 	}
+	g := eng.StaticCallee(call.Common())
 	args := call.Call.Args
+	if mc := m.macro(g); mc != nil && mc.state != nil {
+		if mc.stateParam >= 0 && mc.stateParam < len(args) {
+			v, isConst := eng.ConstInt(args[mc.stateParam])
+			return v, isConst, true
+		}
+		v, isConst := eng.ConstInt(mc.state.Call.Args[len(mc.state.Call.Args)-1])
+		return v, isConst, true
+	}
+	if g != m.stateWriter {
+		return 0, false, false
+	}
 	v, isConst := eng.ConstInt(args[len(args)-1])
 	return v, isConst, true
+}
+
+// smtpMacro: a step helper of the session — a straight-line function of the package whose only
+// calls are one of the reply writer and/or one of the state writer, each handed a parameter of
+// the helper (or a constant): replyAndEnter(msg, state). A call of it is the reply and the
+// transition themselves, with the caller's arguments.
+type smtpMacro struct {
+	send, state           *ssa.Call
+	sendParam, stateParam int // index into the caller's arguments, -1: constant in the helper
+}
+
+func (m *smtpModel) macro(g *ssa.Function) *smtpMacro {
+	if g == nil || m.send == nil || m.stateWriter == nil || g == m.send || g == m.stateWriter || g.Parent() != nil || len(g.Blocks) != 1 || eng.FuncPkgPath(g) != eng.FuncPkgPath(m.send) {
+		return nil
+	}
+	if mc, ok := m.macros[g]; ok {
+		return mc
+	}
+	if m.macros == nil {
+		m.macros = map[*ssa.Function]*smtpMacro{}
+	}
+	m.macros[g] = nil
+	mc := &smtpMacro{sendParam: -1, stateParam: -1}
+	argOf := func(v ssa.Value) (int, bool) {
+		if prm, ok := v.(*ssa.Parameter); ok && prm.Parent() == g {
+			return eng.ParamIndex(prm), true
+		}
+		if _, ok := v.(*ssa.Const); ok {
+			return -1, true
+		}
+		return -1, false
+	}
+	for _, in := range g.Blocks[0].Instrs {
+		call, ok := in.(*ssa.Call)
+		if !ok {
+			switch in.(type) {
+			case *ssa.Return, *ssa.DebugRef:
+				continue
+			}
+			return nil
+		}
+		a := call.Call.Args
+		switch eng.StaticCallee(call.Common()) {
+		case m.send:
+			i, ok := argOf(a[len(a)-1])
+			if !ok || mc.send != nil {
+				return nil
+			}
+			mc.send, mc.sendParam = call, i
+		case m.stateWriter:
+			i, ok := argOf(a[len(a)-1])
+			if !ok || mc.state != nil {
+				return nil
+			}
+			mc.state, mc.stateParam = call, i
+		default:
+			return nil
+		}
+	}
+	if mc.state == nil || mc.send == nil {
+		return nil
+	}
+	m.macros[g] = mc
+	return mc
 }
 
 // entersState matches calls of the state writer with the given constant.
@@ -217,7 +294,7 @@ func (m *smtpModel) isSend(in ssa.Instruction) bool {
 		return false
 	}
 	g := eng.StaticCallee(call.Common())
-	return g != nil && (g == m.send || m.isSendWrapper(g))
+	return g != nil && (g == m.send || m.isSendWrapper(g) || m.macro(g) != nil)
 }
 
 // isSendWrapper: g is a printf-style front of the reply writer: its body is
@@ -273,6 +350,12 @@ func (m *smtpModel) isReset(in ssa.Instruction) bool {
 func (m *smtpModel) sendPrefix(in ssa.Instruction) (string, bool) {
 	call := in.(*ssa.Call)
 	args := call.Call.Args
+	if mc := m.macro(eng.StaticCallee(call.Common())); mc != nil {
+		if mc.sendParam >= 0 && mc.sendParam < len(args) {
+			return eng.ReplyPrefix(args[mc.sendParam])
+		}
+		return eng.ReplyPrefix(mc.send.Call.Args[len(mc.send.Call.Args)-1])
+	}
 	if g := eng.StaticCallee(call.Common()); g != m.send && m.isSendWrapper(g) && len(args) >= 2 {
 		// the constant part of the format before its first verb
 		f, ok := eng.ConstString(args[len(args)-2])
@@ -333,6 +416,86 @@ func (m *smtpModel) callsDataRead(fn *ssa.Function) *ssa.Call {
 	return gcall
 }
 
+// readVia returns the call in fn that performs the DATA read: the call of the read function
+// itself (inner == nil), or the call of a helper of the package whose own body calls the read
+// (receiveData() ([]byte, bool)); inner is then the read call inside the helper.
+func (m *smtpModel) readVia(fn *ssa.Function) (call, inner *ssa.Call) {
+	if g := m.callsDataRead(fn); g != nil {
+		return g, nil
+	}
+	eng.EachInstr(fn, func(in ssa.Instruction) {
+		cc, ok := in.(*ssa.Call)
+		if !ok || call != nil {
+			return
+		}
+		w := eng.StaticCallee(cc.Common())
+		if w == nil || w == fn || len(w.Blocks) == 0 || eng.FuncPkgPath(w) != eng.FuncPkgPath(m.dataRead) {
+			return
+		}
+		if g := m.callsDataRead(w); g != nil {
+			call, inner = cc, g
+		}
+	})
+	return call, inner
+}
+
+// readSucceededAt: in block at (of the function holding call, a result of readVia) the DATA read
+// is known to have succeeded. Direct read: its error is known nil. Through a helper: every
+// return of the helper on which the read's error is not known nil hands back some result the
+// caller has excluded at this point (false where the caller is on the true edge, nil where it
+// has tested non-nil, a non-nil error where it has tested nil).
+func (m *smtpModel) readSucceededAt(call, inner *ssa.Call, at *ssa.BasicBlock) bool {
+	if call == nil || !call.Block().Dominates(at) {
+		return false
+	}
+	if inner == nil {
+		return eng.KnownNil(extractOf(call, 1), at)
+	}
+	w := inner.Parent()
+	errV := extractOf(inner, 1)
+	res := func(i int) ssa.Value {
+		if w.Signature.Results().Len() == 1 {
+			return call
+		}
+		return extractOf(call, i)
+	}
+	for _, b := range w.Blocks {
+		ret, ok := b.Instrs[len(b.Instrs)-1].(*ssa.Return)
+		if !ok {
+			continue
+		}
+		if inner.Block().Dominates(b) && eng.KnownNil(errV, b) {
+			continue // a success return
+		}
+		excluded := false
+		for i, rv := range eng.ReturnResults(ret) {
+			out := res(i)
+			if out == ssa.Value(call) && w.Signature.Results().Len() != 1 {
+				continue // the caller ignores this result
+			}
+			if bv, isB := eng.ConstBool(rv); isB {
+				if kv, known := eng.KnownBool(out, at); known && kv != bv {
+					excluded = true
+				}
+				continue
+			}
+			if eng.IsNilConst(rv) {
+				if eng.KnownNonNil(out, at) {
+					excluded = true
+				}
+				continue
+			}
+			if isErrorType(rv.Type()) && (definitelyNonNilErr(rv) || eng.KnownNonNil(rv, b)) && eng.KnownNil(out, at) {
+				excluded = true
+			}
+		}
+		if !excluded {
+			return false
+		}
+	}
+	return true
+}
+
 // liftToDataReader maps a Deliver call site to the site that stands for it in the function
 // that reads the DATA block: the site itself when its function reads the block, otherwise the
 // single static call of the enclosing helper (repeatedly, bounded), as produced by extracting
@@ -341,7 +504,7 @@ func (m *smtpModel) liftToDataReader(p *eng.Prog, site ssa.CallInstruction) (ssa
 	cur := site
 	for depth := 0; depth < 4; depth++ {
 		F := cur.Parent()
-		if g := m.callsDataRead(F); g != nil {
+		if g, _ := m.readVia(F); g != nil {
 			return cur, g, true
 		}
 		if F.Parent() != nil {
